@@ -252,6 +252,11 @@ def run_op(ctx, op, m, rng):
     except Exception as e:                                # noqa: BLE001 — an exception IS a failing input
         tb = traceback.format_exc()
         key = f'exception:{op.__name__[3:]}:{name}:{type(e).__name__}'
+        if isinstance(e, StopIteration) and op is O.op_to_meshtri and any(
+                len(set(np.asarray(b).tolist())) < len(b) for b in (m.boundaries or {}).values()):
+            # open defect (reported): a named boundary that lists a facet twice — e.g. the two-sided oriented interface
+            # that remove_duplicate_nodes produces — makes the shared-iterator scan of to_meshtri run dry
+            key = 'to_meshtri:repeated-facet-in-boundary'
         ctx.fail(key, f'{op.__name__[3:]} on a {name} raises {type(e).__name__}: {e}',
                  {'mesh': _mj(m), 'op': op.__name__, 'rng_state': _state_json(state), 'traceback': tb[-1500:],
                   'boundary_dtypes': {} if isinstance(m, list) else
